@@ -643,8 +643,10 @@ class Interp:
             b2 = as_tensor(b) if isinstance(b, (STensor, np.ndarray, list, tuple)) else b
             if op in ('/', '//', '%'):
                 self.division_guard(b2, line)
-            return V.elementwise(self.ctx, lambda x, y: binop(op, x, y), a2, b2,
-                                 dtype='real' if op == '/' else None, line=line)
+            f = lambda x, y: binop(op, x, y)  # noqa: E731
+            if self.ctx.ghost.get('fp_standard_model') and op in ('*', '/'):
+                f = self.fp_wrap(op, line)
+            return V.elementwise(self.ctx, f, a2, b2, dtype='real' if op == '/' else None, line=line)
         if isinstance(a, (list, tuple)) and isinstance(b, (list, tuple)) and op == '+':
             return a + b
         if isinstance(a, (list, tuple)) and op == '*' and isinstance(b, int):
@@ -658,7 +660,29 @@ class Interp:
             return hook
         if op in ('/', '//', '%'):
             self.division_guard(b, line)
+        if self.ctx.ghost.get('fp_standard_model') and op in ('*', '/'):
+            return self.fp_wrap(op, line)(a, b)
         return binop(op, a, b)
+
+    def fp_wrap(self, op, line):
+        """Standard model of binary64 rounding: fl(x op y) = (x op y)(1 + d), |d| <= 2^-53 (one d per evaluated operand pair)."""
+        ctx = self.ctx
+        cache = ctx.ghost.setdefault('fp_cache', {})
+        ctx.use('IEEE-754 standard model: fl(x op y) = (x op y)(1+d), |d| <= 2^-53, for * and / (no overflow/underflow)')
+
+        def f(x, y):
+            r = binop(op, x, y)
+            if not (V.is_real_like(r) and is_sym(r)):
+                return r
+            key = (op, line, to_z3(x).sexpr() if is_sym(x) else repr(x), to_z3(y).sexpr() if is_sym(y) else repr(y))
+            d = cache.get(key)
+            if d is None:
+                d = ctx.fresh_real('fp_delta')
+                eps = z3.RealVal(1) / z3.RealVal(2 ** 53)
+                ctx.assume(z3.And(d >= -eps, d <= eps))
+                cache[key] = d
+            return r * (1 + d)
+        return f
 
     def division_guard(self, b, line):
         if isinstance(b, STensor):
